@@ -15,6 +15,8 @@
 """
 from __future__ import annotations
 
+from harness import REPO_SRC  # noqa: E402
+
 import glob
 import itertools
 import json
@@ -85,7 +87,7 @@ def tokens_of(s):
 
 
 def trace_part(ctx, maxlen, rnd):
-    sys.path.insert(0, "/repo/src")
+    sys.path.insert(0, REPO_SRC)
     chars = list(CLASSES.values())
     traces = []
     for n in range(0, maxlen + 1):
@@ -93,7 +95,7 @@ def trace_part(ctx, maxlen, rnd):
             s = "".join(combo)
             traces.append({"input": to_classes(s), "toks": tokens_of(s)})
     nfiles = 0
-    for path in sorted(glob.glob("/repo/src/chameleon/tests/inputs/*.pt") + glob.glob("/repo/src/chameleon/tests/inputs/*.xml"))[:400]:
+    for path in sorted(glob.glob(REPO_SRC + "/chameleon/tests/inputs/*.pt") + glob.glob(REPO_SRC + "/chameleon/tests/inputs/*.xml"))[:400]:
         try:
             s = open(path, encoding="utf-8").read()
         except Exception:
@@ -203,7 +205,7 @@ def norm(s):
 
 
 def docs_part(ctx, rnd, quick):
-    sys.path.insert(0, "/repo/src")
+    sys.path.insert(0, REPO_SRC)
     from chameleon import PageTemplate
     from chameleon.tokenize import iter_xml
     from chameleon.parser import match_tag, identify
@@ -257,7 +259,7 @@ def docs_part(ctx, rnd, quick):
 
 
 def _docs_chunk(recs, fills, seed):
-    sys.path.insert(0, "/repo/src")
+    sys.path.insert(0, REPO_SRC)
     from chameleon import PageTemplate
     from chameleon.exc import TemplateError
     from chameleon.tokenize import iter_xml
